@@ -13,6 +13,7 @@ import (
 const (
 	whatD5           = "compressed ByteStream Write accepts a first request with a non-zero write_offset"
 	whatD6           = "compressed ByteStream Read ignores read_offset"
+	whatD10          = "compressed client Get fails for an intact object (final chunk returned together with io.EOF is dropped)"
 	whatStoredBad    = "ByteStream Write stored an object although no valid complete upload was sent"
 	whatAckNoStore   = "ByteStream Write was acknowledged although nothing was stored"
 	whatCollateral   = "an RPC changed backend contents other than the object it uploads"
